@@ -3,9 +3,11 @@ package csched
 import (
 	"fmt"
 	"os"
+	"runtime"
 	"strings"
 	"testing"
 	"testing/synctest"
+	"time"
 
 	"pgregory.net/rapid"
 
@@ -46,7 +48,7 @@ func genCase(profile string) *rapid.Generator[Case] {
 			"svc.u.book.1", "svc.u.toy.1", "svc.m.a.b", "svc.m.c.b", "svc.r.1", "svc", "svc", "svc.m.n.a.1", "svc.m.n.a.2", "svc.x.a.1", "svc.x.a.2", "svc.m.n.k.1.a", "svc.m.n.k.2.a"}
 		genRID := rapid.OneOf(rapid.SampledFrom(hot), rapid.SampledFrom(hot), rapid.SampledFrom(allRIDs))
 		foreign := func() Op {
-			return Op{K: "foreign", Typ: rapid.SampledFrom([]string{"reset", "resetall", "token", "tokenid", "tokenreset", "event"}).Draw(t, "ftyp"), RID: rapid.SampledFrom(allRIDs[:10]).Draw(t, "rid")}
+			return Op{K: "foreign", Typ: rapid.SampledFrom([]string{"reset", "resetall", "token", "tokenid", "tokenreset", "event", "queryevent", "queryevent"}).Draw(t, "ftyp"), RID: rapid.SampledFrom(allRIDs[:10]).Draw(t, "rid")}
 		}
 		genOp := func() Op {
 			k := rapid.IntRange(0, 99).Draw(t, "opk")
@@ -128,6 +130,41 @@ func genCase(profile string) *rapid.Generator[Case] {
 // runInBubble runs a case in a fresh synctest bubble and converts a bubble
 // deadlock (goroutines left blocked forever) into a C03 violation.
 func runInBubble(t *testing.T, c Case) (out *Outcome) {
+	// A case takes milliseconds. Goroutines that block each other on a lock of the service
+	// are not "durably blocked" for the bubble, so such a deadlock would hang the run: a
+	// watchdog (real time, one minute) looks at the goroutine dump then. A goroutine of the
+	// library still waiting for one of its mutexes then = a deadlock, reported; anything else is
+	// inconclusive.
+	done := make(chan *Outcome, 1)
+	go func() {
+		done <- runInBubbleUnguarded(t, c)
+	}()
+	select {
+	case out = <-done:
+		return out
+	case <-time.After(time.Minute):
+	}
+	buf := make([]byte, 1<<20)
+	dump := string(buf[:runtime.Stack(buf, true)])
+	waits := 0
+	for _, g := range strings.Split(dump, "\n\n") {
+		if (strings.Contains(g, "sync.(*RWMutex).") || strings.Contains(g, "sync.(*Mutex).Lock")) && strings.Contains(g, "github.com/jirenius/go-res.") {
+			waits++
+		}
+	}
+	if d := os.Getenv("VERIF_WORK"); d != "" {
+		_ = os.WriteFile(d+"/hung-goroutines.txt", []byte(dump), 0o644)
+	}
+	out = &Outcome{Viol: map[string][]string{}}
+	if waits >= 1 {
+		out.Viol["C03"] = append(out.Viol["C03"], fmt.Sprintf("the case did not finish within a minute of real time: %d goroutines of the library have been waiting for one of its mutexes all that time (a lock is held across a publish or a wait: deadlock); Shutdown and the calls racing it never return", waits))
+		return out
+	}
+	t.Fatalf("VERIF-INCONCLUSIVE: a bubble case did not finish within a minute of real time (no lock cycle in the goroutine dump)")
+	return out
+}
+
+func runInBubbleUnguarded(t *testing.T, c Case) (out *Outcome) {
 	defer func() {
 		if v := recover(); v != nil {
 			msg := fmt.Sprint(v)
